@@ -7,6 +7,7 @@ import (
 	"encoding/base64"
 
 	"Havoc/pkg/agent"
+	"Havoc/pkg/verifhook"
 )
 
 func (db *DB) AgentAdd(agent *agent.Agent) error {
@@ -43,6 +44,7 @@ func (db *DB) AgentAdd(agent *agent.Agent) error {
 	}
 
 	/* add the data to the agent table */
+	verifhook.Point("db.AgentAdd.exec")
 	_, err = stmt.Exec(
 		int(AgentID),
 		1,
@@ -107,6 +109,7 @@ func (db *DB) AgentUpdate(agent *agent.Agent) error {
 	}
 
 	/* add the data to the agent table */
+	verifhook.Point("db.AgentUpdate.exec")
 	_, err = stmt.Exec(
 		active,
 		agent.Reason,
@@ -150,6 +153,7 @@ func (db *DB) AgentHasDied(AgentID int) bool {
 	}
 
 	// execute statement
+	verifhook.Point("db.AgentHasDied.exec")
 	_, err = stmt.Exec(AgentID)
 	stmt.Close()
 
@@ -197,6 +201,7 @@ func (db *DB) AgentRemove(AgentID int) error {
 	}
 
 	// execute statement
+	verifhook.Point("db.AgentRemove.exec")
 	_, err = stmt.Exec(AgentID)
 	stmt.Close()
 
